@@ -195,6 +195,7 @@ static void case_big(uint64_t idx, vh_rng *r)
     vh_handle A, Bh; char what[200], key_[200];
     if (par) { len = len / c->bb * c->bb; pre = 0; dec = c->par_decrypt && vh_below(r, 2); }
     vh_rand_bytes(r, key, 48); vh_rand_bytes(r, small, sizeof(small));
+    if (!vh_below(r, 2)) vh_fill_msb_boundary(r, small, c->bb);
     src = malloc(len * 2 + 16); ref = malloc(len + 16);
     for (q = 0; q < 2 * len; ++q) src[q] = (uint8_t)(q * 131 + (q >> 9) + small[q & 255]);
     memset(&A, 0, sizeof(A)); memset(&Bh, 0, sizeof(Bh));
@@ -253,6 +254,7 @@ static void case_ctr(uint64_t idx, vh_rng *r)
     if (tweaked && klen > 2 * c->bb) klen = 2 * c->bb;
     if (!vh_below(r, 10)) len = 3000 + vh_below(r, 1000);
     vh_rand_bytes(r, key, 48); vh_rand_bytes(r, tweak, 16); vh_rand_bytes(r, ctr, 16); vh_rand_bytes(r, BIG[0], len + 64);
+    if (!vh_below(r, 3)) { vh_fill_msb_boundary(r, ctr, clen); VH_COUNT("ctr_calls_with_counter_word_at_its_top_bit_or_wrap_boundary", 1); }
     memset(&A, 0, sizeof(A)); memset(&Bh, 0, sizeof(Bh));
     vh_set_cap(be);
     snprintf(key_, sizeof(key_), "C09:%s_ctr:%s", c->name, vh_backend_names[be]); vh_set_crash_key(key_);
@@ -355,6 +357,69 @@ static void case_par(uint64_t idx, vh_rng *r)
     c->par_cleanup(&A); c->par_cleanup(&Bh);
 }
 
+/* ---- buffers whose addresses differ by an exact multiple of 4 GiB (same low 32 address bits, not overlapping) ---- */
+static uint8_t *far_map(uint8_t *want, size_t span)
+{
+#ifndef MAP_FIXED_NOREPLACE
+#define MAP_FIXED_NOREPLACE 0x100000
+#endif
+    uint8_t *p = mmap(want, span, PROT_READ | PROT_WRITE, MAP_PRIVATE | MAP_ANONYMOUS | (want ? MAP_FIXED_NOREPLACE : 0), -1, 0);
+    if (p == MAP_FAILED) return NULL;
+    if (want && p != want) { munmap(p, span); return NULL; }
+    return p;
+}
+static void case_far(uint64_t idx, vh_rng *r)
+{
+    const vh_cipher *c = &vh_ciphers[idx % CIPH_N];
+    int be = (int)((idx / CIPH_N) % (uint64_t)(maxbe[c->id] + 1)), par = (int)((idx / 9) & 1), dec = 0, ra = 1, rb = 1, k;
+    unsigned batch = c->bb * 8, len = vh_below(r, 4) ? vh_below(r, 3 * batch + 18) : 2000 + vh_below(r, 6000), mis = vh_below(r, 64), pre = vh_below(r, 2) ? vh_below(r, 70) : 0;
+    size_t span = 16384; uint8_t *m[3] = {0, 0, 0}, *in, *out, *tw = NULL, key[48], ctr[16], junk[80];
+    static uint8_t src[2][8200], ref[8200], stale[8200];
+    long long mult = (long long)(1 + vh_below(r, 3)) * (vh_below(r, 2) ? 1 : -1);
+    vh_handle A, Bh; char what[200], key_[200];
+    if (par) { len = len / c->bb * c->bb; pre = 0; dec = c->par_decrypt && vh_below(r, 2); }
+    vh_rand_bytes(r, key, 48); vh_rand_bytes(r, ctr, 16); vh_rand_bytes(r, src[0], len); vh_rand_bytes(r, src[1], len); vh_rand_bytes(r, stale, len); vh_rand_bytes(r, junk, sizeof(junk));
+    m[0] = far_map(NULL, span);
+    if (m[0]) m[1] = far_map(m[0] + mult * 0x100000000LL, span);
+    if (m[0] && !m[1]) { mult = -mult; m[1] = far_map(m[0] + mult * 0x100000000LL, span); }
+    if (m[1] && par && c->id == CIPH_MANTIS) m[2] = far_map(m[1] + mult * 0x100000000LL, span);
+    if (!m[0] || !m[1]) { VH_COUNT("far_placement_unavailable", 1); if (m[0]) munmap(m[0], span); return; }
+    in = m[0] + mis; out = m[1] + mis;            /* out - in == mult * 2^32 exactly */
+    memcpy(in, src[0], len); memcpy(out, stale, len);
+    if (par && c->id == CIPH_MANTIS) { tw = m[2] ? m[2] + mis : m[0] + 8192 + mis; memcpy(tw, src[1], len); }
+    memset(&A, 0, sizeof(A)); memset(&Bh, 0, sizeof(Bh));
+    vh_set_cap(be);
+    snprintf(key_, sizeof(key_), "C09:%s_%s:%s:buffers-4GiB-apart", c->name, par ? "parallel" : "ctr", vh_backend_names[be]); vh_set_crash_key(key_);
+    if (par) {
+        c->par_init(&A); c->par_init(&Bh); c->par_set_key(&A, key, 16, 6, MANTIS_ENCRYPT); c->par_set_key(&Bh, key, 16, 6, MANTIS_ENCRYPT);
+        vh_call_begin("parallel call, buffers 4 GiB apart"); ra = (dec ? c->par_decrypt : c->par_encrypt)(out, in, tw, len, &A); vh_call_end();
+        rb = (dec ? c->par_decrypt : c->par_encrypt)(ref, src[0], src[1], len, &Bh);
+        c->par_cleanup(&A); c->par_cleanup(&Bh);
+    } else {
+        c->ctr_init(&A); c->ctr_init(&Bh); c->ctr_set_key(&A, key, 16, 7); c->ctr_set_key(&Bh, key, 16, 7);
+        c->ctr_set_counter(&A, ctr, c->bb); c->ctr_set_counter(&Bh, ctr, c->bb);
+        if (pre) { uint8_t t2[80]; c->ctr_encrypt(t2, junk, pre, &A); c->ctr_encrypt(t2, junk, pre, &Bh); }
+        vh_call_begin("ctr call, buffers 4 GiB apart"); ra = c->ctr_encrypt(out, in, len, &A); vh_call_end();
+        rb = c->ctr_encrypt(ref, src[0], len, &Bh);
+        c->ctr_cleanup(&A); c->ctr_cleanup(&Bh);
+    }
+    VH_COUNT("calls_with_buffers_a_multiple_of_4GiB_apart", 1);
+    { int cfg[6] = {c->id + 500, be, par, (int)len, (int)mis, (int)mult}; if (vh_distinct(vh_hash(cfg, sizeof(cfg), VH_HASH_INIT))) VH_COUNT("distinct_placement_configurations", 1); }
+    what[0] = 0;
+    if (ra != 1 || rb != 1) snprintf(what, sizeof(what), "valid call rejected");
+    else if (memcmp(out, ref, len)) { unsigned q = 0; while (q < len && out[q] == ref[q]) ++q; snprintf(what, sizeof(what), "result differs from the call on ordinary buffers at byte %u", q); }
+    else if (memcmp(in, src[0], len)) snprintf(what, sizeof(what), "input buffer modified");
+    else if (tw && memcmp(tw, src[1], len)) snprintf(what, sizeof(what), "tweak array modified");
+    if (what[0]) {
+        char d[400], k2[300];
+        snprintf(d, sizeof(d), "{\"object\":\"%s_%s\",\"backend\":\"%s\",\"bytes\":%u,\"out_minus_in\":\"%lld * 2^32\",\"offset_in_page\":%u,\"bytes_consumed_before\":%u,\"problem\":\"%s\"}",
+                 c->name, par ? "parallel" : "ctr", vh_backend_names[be], len, mult, mis, pre, what);
+        snprintf(k2, sizeof(k2), "C09:%s_%s:%s:placement-changes-result", c->name, par ? "parallel" : "ctr", vh_backend_names[be]);
+        viol(k2, idx, d);
+    }
+    for (k = 0; k < 3; ++k) if (m[k]) munmap(m[k], span);
+}
+
 static void one_case(uint64_t idx)
 {
     vh_rng r; char d[256];
@@ -362,6 +427,7 @@ static void one_case(uint64_t idx)
     snprintf(d, sizeof(d), "{\"driver\":\"drv_buf\",\"prop\":\"C09\",\"mode\":\"c09\",\"seed\":%llu,\"case\":%llu,\"variant\":\"%s\"}", (unsigned long long)vh_seed, (unsigned long long)idx, vh_variant);
     vh_case_begin(idx, "C09", d);
     if (idx % 1000 == 999) { case_big(idx / 1000, &r); return; }
+    if (idx % 100 == 57) { case_far(idx / 100, &r); return; }
     switch (idx & 3) {
     case 0: case_single(idx >> 2, &r); break;
     case 1: case_keys(idx >> 2, &r); break;
